@@ -9,6 +9,7 @@ LEAN_TARGETS = ['Props.C18']
 REQUIRED_THEOREMS = ['Props.C18.split_concat', 'Props.C18.split_sizes', 'Props.C18.split_perm',
                      'Props.C18.loader_len_floor', 'Props.C18.loader_batch_exact', 'Props.C18.loader_covers_prefix',
                      'Props.C18.oneHot_row', 'Props.C18.loader_reiterable', 'Props.C18.loops_all_from_start', 'Props.C18.oneHot_map_strictMono', 'Props.C18.oneHot_distinct_columns']
+REQUIRED_THEOREMS += ['Props.C18.' + t for t in ['src_loader_len', 'src_loader_item', 'src_loader_iter', 'src_loader_next']]   # ties to data.py as read on this run
 RULE = ('split: every n in a range x test fraction x val fraction (or none) x shuffle off / on with a drawn seed; '
         'loader: (nx, ny, batch) incl. batch 0, batch > n, with and without transform (callable object, DataLoaderCallback subclass, falsy callable, plain function), iterated twice; programs of 2-5 successive for-loops over one loader object, each abandoned after k batches (break, or explicit iter/next) or exhausted; '
         'DATA LAYOUT of split / loader / loops: labels of every rank ((n,), (n,1), (n,k) one-hot / multi-output, (n,k,m)) and features of every rank ((n,), (n,d), (n,d,e), (n,c,h,w)), each handed over as ndarray (int64 / float64 / float32), '
@@ -22,6 +23,7 @@ EXHAUSTIVE = {'quick': False, 'thorough': False}
 ASSUMPTIONS = ['np.random.shuffle is deterministic given the global seed (the permutation is captured from it)',
                'np.floor / float multiply are IEEE binary64 as in Lean Float']
 TRUSTED_BASE = ['harness/props/c18.py (generator, canonicalisation, order-preserving injection of labels into the integers)']
+TRUSTED_BASE = TRUSTED_BASE + ['harness/data_formulas.py (reading of the index arithmetic of DataLoader as Lean terms over Nat, Generated/LoaderLogic.lean)']
 
 FRACS = [0.0, 0.1, 0.2, 0.25, 0.29, 0.3, 1 / 3, 0.5, 0.57, 0.7, 0.9, 0.99, 1.0, 0.15, 0.35, 0.44, 0.6, 0.72, 0.8, 0.85, 0.95]
 NS_EXACT = [10, 20, 25, 40, 50, 100]      # lengths for which many fractions give an exact integer (where floor and ceil roundings differ)
@@ -83,6 +85,12 @@ def _lay_data(c):
     y = _mk(c['ny'] if 'ny' in c else c['n'], lay['ys'], lay['yc'], 1000, 1)
     return X, y, lay
 
+
+
+def extract():
+    """the index arithmetic of DataLoader is re-read from data.py (Generated/LoaderLogic.lean); the src_loader_* theorems are re-checked by the build"""
+    import data_formulas
+    return data_formulas.write()[0]
 
 def cases(rng, tier):
     out = []
